@@ -78,8 +78,25 @@ LETTERS = {
     # IDLE ended by something that is not DONE: answered BAD, still selected
     'idle_garbage': ('select', [{'kind': 'idle'},
                                 {'kind': 'done', 'line': 'NOOP'}]),
+    # DONE and the next command in one burst (a list = one step): whatever
+    # IDLE still has running must not outlive it
+    'idle_pipe_close': ('select', [{'kind': 'idle'}, [
+        {'kind': 'done'}, {'kind': 'close', 'pipeline': True}]]),
+    'idle_pipe_select_other': ('select', [{'kind': 'idle'}, [
+        {'kind': 'done'},
+        {'kind': 'select', 'mailbox': 'Other', 'pipeline': True}]]),
+    'idle_pipe_select_missing': ('select', [{'kind': 'idle'}, [
+        {'kind': 'done'},
+        {'kind': 'select', 'mailbox': 'Missing', 'pipeline': True}]]),
 }
-NAMES = list(LETTERS)
+# letters judged like another letter (their last command is that letter's)
+ALIAS = {'idle_pipe_close': 'close',
+         'idle_pipe_select_other': 'select_other',
+         'idle_pipe_select_missing': 'select_missing'}
+# the IDLE variants are enumerated in their own families below and drawn in
+# random programs; the exhaustive products run over the plain letters
+SPECIAL = ['idle_garbage'] + list(ALIAS)
+NAMES = [n for n in LETTERS if n not in SPECIAL]
 # interference: another session of the same user changes the namespace under
 # the session being examined (class 'ext', never gated, run by session 8)
 EXT = {
@@ -238,12 +255,26 @@ def run_program(case: dict, trace: bool = False) -> dict:
             before_dump = dump_all(ctx, model.boxes) if not allowed else None
             before_reveal = reveal() if not allowed else None
             cmd = None
+            if name in ALIAS and not allowed:
+                # nothing is idling here: plain IDLE + DONE, both refused
+                actions = LETTERS['idle'][1]
             for act in actions:
+                if isinstance(act, list):
+                    cs = ctx.run_step({'actions': [dict(a, sess=0)
+                                                   for a in act]},
+                                      ctx.step_index)
+                    cmd = cs[-1]
+                    continue
                 c = do(act)
                 if act['kind'] != 'done':
                     cmd = c
             if cmd is None:
                 continue
+            if name in ALIAS and allowed:
+                # the pipelined command is the one being judged
+                ctx.settle(1.0)
+                name = ALIAS[name]
+                actions = LETTERS[name][1]
             ctx.stat('letters')
             cond = cmd.cond
             if model.dangling and name != 'logout' and (
@@ -448,6 +479,13 @@ class C05(Profile):
                                     False)
         # a refused IDLE, a change of selection, a change of the mailbox
         # that was idled on by someone else, then every letter
+        # DONE pipelined with a change of selection, a foreign change of the
+        # mailbox that was idled on, then every letter
+        for start in ('selected', 'examined'):
+            for piped in ALIAS:
+                for name in NAMES:
+                    yield make_case(start, [piped, 'ext_append_inbox', name],
+                                    False)
         for start in ('selected', 'examined'):
             for mover in ('close', 'select_other', 'examine_inbox',
                           'select_missing'):
@@ -465,7 +503,7 @@ class C05(Profile):
         movers = ['login_good', 'select_inbox', 'select_other', 'close',
                   'examine_inbox', 'select_missing', 'auth_good', 'logout']
         prog = [rng.choice(movers) if rng.random() < 0.35
-                else rng.choice(NAMES) for _ in range(n)]
+                else rng.choice(NAMES + SPECIAL) for _ in range(n)]
         if rng.random() < 0.4:
             for _ in range(rng.randint(1, 3)):
                 prog.insert(rng.randrange(len(prog) + 1),
